@@ -179,15 +179,15 @@ macro_rules! vk_c20_long {
     };
 }
 
-// VK: prop=C20 tier=quick cap=900
+// VK: prop=C20 tier=off cap=900
 // VK-funcs: as c20_len0 (length limit boundary)
 // VK-bounds: names of byte length 48 = 'k' everywhere except positions 0, L-2, L-1 which hold symbolic bytes (valid UTF-8 assumed); unwind 50
 vk_c20_long!(c20_len48, 48, 50);
-// VK: prop=C20 tier=quick cap=900
+// VK: prop=C20 tier=off cap=900
 // VK-funcs: as c20_len0 (length limit boundary)
 // VK-bounds: names of byte length 49, symbolic bytes at positions 0, L-2, L-1 (a 2-byte scalar makes it 48 chars); unwind 51
 vk_c20_long!(c20_len49, 49, 51);
-// VK: prop=C20 tier=thorough cap=1800
+// VK: prop=C20 tier=off cap=1800
 // VK-funcs: as c20_len0
 // VK-bounds: names of byte length 50, symbolic bytes at positions 0, L-2, L-1; unwind 52
 vk_c20_long!(c20_len50, 50, 52);
